@@ -10,6 +10,16 @@ CHECKS = {
    text="Runtime monitoring of the real `gleece generate spec` child process on 80 (thorough 800) generated projects x 2 OpenAPI versions: controllers spread over files and packages, shared and parameterised prefixes, doubled/trailing/missing slashes, same path on several verbs, hidden/deprecated/non-endpoint methods, same-named controllers in different packages. The oracle is the descriptor the project was rendered from (verb, normalised path, operationId, tag, deprecation), read with our own JSON reader. Exploration over generated projects only.",
    note="Trusts the renderer writing what the descriptor says and the path normal form of DESIGN A.1; projects gleece rejects are counted as vacuous (acceptance floor 50%).",
    ref="DESIGN.md §5 C01"),
+ "C06": dict(
+   technique="ground-truth-by-construction monitor: every documented operation of both spec versions compared with the contract (parameters, requiredness, bodies, responses) derived from the generated method signature",
+   text="Runtime monitoring of the real CLI on 80 (thorough 800) generated projects x 2 versions, ~850 operations per quick run over >400 distinct signature shapes: parameter lists over all five locations plus context, pointer x location x validator requiredness matrix, wire-name aliases, enums/aliases/query slices, JSON and form bodies, every return shape, custom error types, @Response/@ErrorResponse. Oracle = descriptor-derived contract (DESIGN A.3-A.5) read with our own JSON reader. Exploration only.",
+   note="Trusts the type->schema table and the requiredness rule as transcribed from the statement; validation keywords inside schemas are C11's subject, not judged here.",
+   ref="DESIGN.md §5 C06"),
+ "C07": dict(
+   technique="ground-truth-by-construction monitor: components.schemas of both spec versions compared with the reachability closure and per-declaration schemas derived from the generated type graph",
+   text="Runtime monitoring of the real CLI on 70 (thorough 600) generated type graphs x 2 versions: self-recursive and acyclic struct graphs over several packages, embedded structs (allOf), enums of eight basic kinds incl. '='-style, aliases, nested slices, maps, time/bytes/any, unexported and json:\"-\" fields, decoy constants and unreachable decoy types, usage-site validators on enum-typed fields (the non-interference clause: the shared component must still list all declared constants). Oracle = declarations in the descriptor (DESIGN A.4/A.6). Exploration only.",
+   note="Presence of a component for a type reachable only from hidden routes, and of Rfc7807Error when no route returns plain error, is not judged; enum values compared by printed form.",
+   ref="DESIGN.md §5 C07"),
  "C15": dict(
    technique="reference-model monitor: brute-force overlap oracle over every route list (bounded-exhaustive + random, permutation re-runs) observing paths.FindConflicts in-process",
    text="Runtime monitoring of the real FindConflicts: every ordered list of <=3 (thorough <=4) entries over 42 route entries plus thousands of large duplicate-heavy random lists are executed and each reported conflict / each unflagged entry is judged by a 12-line overlap model transcribed from the statement; entry identity is tracked by pointer so duplicates are distinguishable. Exploration, not proof: the verdict covers the enumerated and sampled lists only.",
